@@ -33,8 +33,17 @@ def executable(raw, style):
 
 
 def run_case(style, entry, text, first_style=None):
-    """`first_style`: the builder is created with that style, emits one comment, and is switched to `style` at run time."""
-    if first_style is None:
+    """`first_style`: the builder is created with that style, emits one comment, and is switched to `style` at run time.
+    A first_style of the form ('pad', s) configures the style with surrounding blanks (the setter strips them);
+    ('bystander', s) creates a second, differently configured builder after this one and keeps it alive."""
+    bystander = None
+    if isinstance(first_style, (list, tuple)) and first_style[0] == "pad":
+        st = Sut({"comment_symbols": first_style[1], "line_endings": "\n"})
+    elif isinstance(first_style, (list, tuple)) and first_style[0] == "bystander":
+        st = Sut({"comment_symbols": style, "line_endings": "\n"})
+        bystander = Sut({"comment_symbols": first_style[1], "line_endings": "\r\n", "decimal_places": 1, "x_axis": "A"})
+        bystander.g.comment("other program")
+    elif first_style is None:
         st = Sut({"comment_symbols": style, "line_endings": "\n"})
     else:
         st = Sut({"comment_symbols": first_style, "line_endings": "\n"})
@@ -86,8 +95,8 @@ def _work(item):
             else:
                 kind = "executable-words-changed"
             has_break = any(c in text for c in "\r\n")
-            out.append((f"{entry}:{kind}:{'line-break' if has_break else 'delimiter'}" + (":after-style-switch" if first_style else ""),
-                        f"style {style!r}{' (switched at run time from ' + repr(first_style) + ')' if first_style else ''} text {text!r}: output {raw!r} executes {got}, with an innocuous comment {base}",
+            out.append((f"{entry}:{kind}:{'line-break' if has_break else 'delimiter'}" + ((":after-style-switch" if isinstance(first_style, str) else ":" + first_style[0]) if first_style else ""),
+                        f"style {style!r}{' (variant ' + repr(first_style) + ')' if first_style else ''} text {text!r}: output {raw!r} executes {got}, with an innocuous comment {base}",
                         {"style": style, "entry": entry, "text": text, "first_style": first_style}))
     return n, out, outcomes
 
@@ -109,6 +118,15 @@ def run(tier, seed):
     for style in STYLES:
         for entry in ENTRIES:
             items.append((style, entry, 1, SPECIAL))
+    # styles configured with surrounding blanks; a second live builder with another style (and precision, line ending, axis label)
+    for style in STYLES:
+        if style in ("(", "[", "/*", '"', "<", ";"):
+            for pad in (style + " ", " " + style, "\t" + style + "  "):
+                for entry in ("comment", "move", "annotate", "emergency_halt"):
+                    items.append((style, entry, 2, CORE, ("pad", pad)))
+        other = "(" if style != "(" else ";"
+        for entry in ("comment", "move", "annotate", "emergency_halt", "auto_home"):
+            items.append((style, entry, 2, CORE, ("bystander", other)))
     # run-time style switches on a live builder (non-initial formatter state): every ordered pair of styles
     for a in STYLES:
         for b in STYLES:
